@@ -152,6 +152,8 @@ class Engine:
                 if full + "." + attr in self.program.modules:
                     return VModule(full + "." + attr)
                 return self.lookup_global(attr, full)
+            if full == "measured" and attr in self.schema.consts:
+                return self.schema.const_value(attr)
             if full == "measured" or full.startswith("measured."):
                 return VModule(full + "." + attr)
             return VFunc(full + "." + attr)  # external function / class, by dotted name
@@ -1077,6 +1079,9 @@ def _has_quant(f):
             continue
         seen.add(x.get_id())
         if z3.is_quantifier(x):
+            if x.is_lambda():
+                stack.append(x.body())  # a lambda is a term, not a quantified formula
+                continue
             res = True
             break
         stack.extend(x.children())
